@@ -1,0 +1,13 @@
+//go:build verif
+
+package dastard
+
+// VerifHook, when set by a verification harness, is called at every named point
+// with the point's name and arguments. Only built with the "verif" build tag.
+var VerifHook func(name string, args ...interface{})
+
+func verifPoint(name string, args ...interface{}) {
+	if VerifHook != nil {
+		VerifHook(name, args...)
+	}
+}
